@@ -6,6 +6,7 @@ import (
 	stdjson "encoding/json"
 	"fmt"
 	"reflect"
+	"runtime"
 	"strings"
 	realsync "sync"
 
@@ -76,6 +77,111 @@ type tR struct {
 	V    int64 `thrift:"1"`
 	Next *tR   `thrift:"2"`
 }
+
+// ---- values with methods of their own: the library calls back into user code, which may take any
+// amount of time. userYield is a scheduling point under the scheduler (c09.go) and a Gosched otherwise.
+
+var userYield = runtime.Gosched
+
+// yKey: the number of MarshalText calls made while sorting depends on the order in which the runtime
+// iterates the map, so a key of a larger map yields only while the budget shared by the keys of its map lasts.
+type yKey struct {
+	N      int
+	budget *int32
+}
+
+func (k yKey) MarshalText() ([]byte, error) {
+	if k.budget == nil {
+		userYield()
+	} else if *k.budget > 0 {
+		*k.budget--
+		userYield()
+	}
+	return []byte(fmt.Sprintf("key-%03d", k.N)), nil
+}
+
+func (k *yKey) UnmarshalText(b []byte) error {
+	userYield()
+	_, err := fmt.Sscanf(string(b), "key-%d", &k.N)
+	return err
+}
+
+type yVal struct{ S string }
+
+func (v yVal) MarshalJSON() ([]byte, error) {
+	userYield()
+	return stdjson.Marshal("<" + v.S + ">")
+}
+
+func (v *yVal) UnmarshalJSON(b []byte) error {
+	userYield()
+	return stdjson.Unmarshal(b, &v.S)
+}
+
+type yHolder struct {
+	A yVal          `json:"a"`
+	M map[yKey]yVal `json:"m"`
+	L []yVal        `json:"l"`
+}
+
+type yWriter struct{ buf bytes.Buffer }
+
+func (w *yWriter) Write(p []byte) (int, error) {
+	userYield()
+	return w.buf.Write(p)
+}
+
+// pY is a proto.Message with its own methods.
+type pY struct{ B []byte }
+
+func (m pY) Size() int { userYield(); return len(m.B) }
+func (m pY) Marshal(b []byte) error {
+	userYield()
+	copy(b, m.B)
+	return nil
+}
+func (m *pY) Unmarshal(b []byte) error {
+	userYield()
+	m.B = append([]byte{}, b...)
+	return nil
+}
+
+type pYH struct {
+	ID int64         `protobuf:"varint,1,opt,name=id"`
+	Y  pY            `protobuf:"bytes,2,opt,name=y"`
+	Ys []pY          `protobuf:"bytes,3,rep,name=ys"`
+	M  map[string]pY `protobuf:"bytes,4,rep,name=m"`
+}
+
+func jsonEncoderYieldingWriter(name string, mk func() any) call {
+	return call{"json.Encoder.Encode(" + name + ", writer that takes its time)", func() func() string {
+		w := &yWriter{}
+		enc := json.NewEncoder(w)
+		err := enc.Encode(mk())
+		err2 := enc.Encode(mk())
+		return func() string { return w.buf.String() + "|" + errStr(err) + errStr(err2) }
+	}}
+}
+
+var (
+	valYMap1 = func() any {
+		b := new(int32)
+		*b = 3
+		return map[yKey]int{{30, b}: 1, {10, b}: 2, {20, b}: 3}
+	}
+	valYMap2 = func() any {
+		b := new(int32)
+		*b = 3
+		return map[yKey]int{{3, b}: 1, {1, b}: 2, {2, b}: 3, {5, b}: 4}
+	}
+	valYHolder = func() any {
+		return yHolder{A: yVal{"a"}, M: map[yKey]yVal{{N: 2}: {"two"}, {N: 1}: {"one"}}, L: []yVal{{"x"}, {"y"}}}
+	}
+	docYHolder = `{"a":"A","m":{"key-007":"seven","key-004":"four"},"l":["p","q","r"]}`
+	valPYH     = func() any {
+		return &pYH{ID: 3, Y: pY{[]byte("yy")}, Ys: []pY{{[]byte("a")}, {[]byte("bcd")}}, M: map[string]pY{"k": {[]byte("v")}}}
+	}
+)
 
 // a call returns a function rendering its (live) result
 type call struct {
@@ -408,6 +514,25 @@ func drivers() []driver {
 			}
 		}, 2, 3, func() []call {
 			return []call{jsonMarshal("map[string]RawMessage", valRawMap), jsonMarshal("nested maps", valNestedMaps)}
+		}},
+		{"user-callbacks-warm", func() [][]call {
+			return [][]call{
+				{jsonMarshal("map[yKey]int/1", valYMap1), jsonUnmarshal("yHolder", docYHolder, func() any { return new(yHolder) })},
+				{jsonMarshal("map[yKey]int/2", valYMap2), jsonEncoderYieldingWriter("yHolder", valYHolder)},
+				{jsonMarshal("yHolder", valYHolder), jsonMarshal("map[yKey]int/1", valYMap1)},
+			}
+		}, 2, 3, func() []call {
+			return []call{jsonMarshal("map[yKey]int/1", valYMap1), jsonMarshal("yHolder", valYHolder), jsonUnmarshal("yHolder", docYHolder, func() any { return new(yHolder) })}
+		}},
+		{"user-callbacks-proto", func() [][]call {
+			b := mustProto(valPYH())
+			return [][]call{
+				{protoMarshal("*pYH", valPYH)},
+				{protoUnmarshal("pYH", b, func() any { return new(pYH) })},
+				{protoSize("*pYH", valPYH), protoMarshal("*pYH", valPYH)},
+			}
+		}, 2, 3, func() []call {
+			return []call{protoMarshal("*pYH", valPYH)}
 		}},
 		{"mixed", func() [][]call {
 			return [][]call{
